@@ -24,6 +24,14 @@
 //!     balance stamped OLDER than the snapshot and the engine keeps the snapshot's pre-order
 //!     balance - measured once in ~500 concurrent runs, a timing dependence of the scenario.)
 //!
+//!   * mode "paused": ONE `current_thread` runtime with tokio's clock PAUSED (`start_paused`), over
+//!     the harness `SlowMarketData` whose stream sleeps (virtual time) before every item and
+//!     before it ends - gaps from a millisecond to hours, days in total, zero wall cost. Any
+//!     finite cap on how long `shutdown_after_backtest` waits for the market forwarder makes the
+//!     engine stop on a prefix. (HistoricalClock reads `Utc::now`, which is not tokio time - it
+//!     merely stamps; nothing in `backtest()` needs a multi-thread runtime.) Judged on the
+//!     dataset-consumption clauses.
+//!
 //! Observation: the engine state type is `EngineState<RecGlobal, RecInst>` - recording data states
 //! implemented here (every market event / account event the engine hands them, in order; every
 //! in-flight order record). The state lives in the constant arguments and is CLONED per run by
@@ -621,6 +629,82 @@ impl BacktestMarketData for GatedMarketData {
     }
 }
 
+/// Data source whose stream takes (virtual) time: sleeps `gaps[i]` ms before item i and
+/// `gaps[n]` ms before it ends.
+#[derive(Debug)]
+pub struct SlowMarketData {
+    events: Arc<Vec<Item>>,
+    time_first: DateTime<Utc>,
+    gaps_ms: Arc<Vec<u64>>,
+}
+
+impl BacktestMarketData for SlowMarketData {
+    type Kind = Tick;
+
+    async fn time_first_event(&self) -> Result<DateTime<Utc>, BarterError> {
+        Ok(self.time_first)
+    }
+
+    async fn stream(&self) -> Result<impl Stream<Item = Item> + Send + 'static, BarterError> {
+        let events = Arc::clone(&self.events);
+        let gaps = Arc::clone(&self.gaps_ms);
+        Ok(futures::stream::unfold(0usize, move |idx| {
+            let events = Arc::clone(&events);
+            let gaps = Arc::clone(&gaps);
+            async move {
+                tokio::time::sleep(Duration::from_millis(gaps[idx.min(gaps.len() - 1)])).await;
+                if idx >= events.len() {
+                    return None;
+                }
+                Some((events[idx].clone(), idx + 1))
+            }
+        }))
+    }
+}
+
+/// Gaps (ms) before items 1..n and before the end of the stream.
+fn gaps(n: usize, data_seed: u64, profile: &str) -> Vec<u64> {
+    let mut rng = vh::util::rng(data_seed ^ 0x6A95);
+    let short = [1u64, 3, 20, 50, 120, 400];
+    let long = [1u64, 50, 900, 4_000, 6_000, 30_000, 600_000, 3_600_000, 21_600_000];
+    (0..=n)
+        .map(|j| match profile {
+            // every gap well below any plausible cap, the total far above it
+            "short" => short[rng.random_range(0..short.len())],
+            // a single long pause in an otherwise instantaneous stream
+            "one" => if j == n / 2 { 7_200_000 } else { 0 },
+            // only the END of the stream is late
+            "tail" => if j == n { 86_400_000 } else { 1 },
+            _ => long[rng.random_range(0..long.len())],
+        })
+        .collect()
+}
+
+fn first_item_time(events: &[Item]) -> DateTime<Utc> {
+    events.iter().find_map(|e| match e { MarketStreamEvent::Item(e) => Some(e.time_exchange), _ => None }).unwrap_or(time(0))
+}
+
+type CallOutcome = Result<Result<Result<Vec<BacktestSummary<Daily>>, String>, ()>, String>;
+
+/// THE call under test. `bounded`: wrap it in the (tokio-time) scenario bound - not under the
+/// paused clock, where tokio time is virtual and datasets last days.
+fn call_run_backtests<MD>(
+    rt: &tokio::runtime::Runtime,
+    args: Arc<BacktestArgsConstant<MD, Daily, State>>,
+    dynamics: Vec<BacktestArgsDynamic<ActStrategy, DefaultRiskManager<State>>>,
+    bounded: bool,
+) -> CallOutcome
+where
+    MD: BacktestMarketData<Kind = Tick>,
+{
+    catch(|| {
+        rt.block_on(async {
+            let run = async { run_backtests(args, dynamics).await.map(|m| m.summaries).map_err(|e| format!("{e:?}")) };
+            if bounded { tokio::time::timeout(SCENARIO_TIMEOUT, run).await.map_err(|_| ()) } else { Ok(run.await) }
+        })
+    })
+}
+
 // ------------------------------------------------------------------------------------------
 // world
 // ------------------------------------------------------------------------------------------
@@ -777,14 +861,33 @@ fn plan(seed: u64, tier: &str) -> Vec<Value> {
             (500, vec![(1, 4), (2, 1), (8, 16), (32, 2), (32, 4)]),
             (1000, vec![(8, 1), (32, 4), (32, 16)]),
             (2000, vec![(1, 1), (2, 16), (8, 2), (8, 4)]),
+            (4100, vec![(2, 4)]),
+            (9000, vec![(1, 2), (2, 16)]),
+            (13000, vec![(1, 1)]),
         ]
     } else {
-        vec![(50, vec![(1, 1), (2, 4), (8, 2), (8, 1)]), (500, vec![(1, 2), (2, 1), (8, 4)]), (1000, vec![(2, 2)]), (2000, vec![(1, 4)])]
+        vec![
+            (50, vec![(1, 1), (2, 4), (8, 2), (8, 1)]),
+            (500, vec![(1, 2), (2, 1), (8, 4)]),
+            (1000, vec![(2, 2)]),
+            (2000, vec![(1, 4)]),
+            // beyond one and two 4096-item chunks of a chunked reader
+            (4100, vec![(1, 2)]),
+            (9000, vec![(1, 1)]),
+        ]
     };
     for (dsi, (n, grid)) in inmem.iter().enumerate() {
         let n = *n;
         let data_seed = seed * 1000 + 500 + dsi as u64;
-        let mut recs: Vec<u32> = (0..(1 + n / 100)).map(|_| rng.random_range(2..=n as u32)).collect();
+        let mut recs: Vec<u32> = (0..(1 + n / 100).min(30)).map(|_| rng.random_range(2..=n as u32)).collect();
+        // every other dataset BEGINS with one or two Reconnecting items (a recording that starts
+        // while the link is still connecting): they are dataset items like any other
+        if dsi % 2 == 0 {
+            recs.push(1);
+            if dsi % 4 == 0 {
+                recs.push(2);
+            }
+        }
         recs.sort();
         recs.dedup();
         let all: Vec<u32> = (1..=n as u32).filter(|k| !recs.contains(k)).collect();
@@ -804,6 +907,35 @@ fn plan(seed: u64, tier: &str) -> Vec<Value> {
             out.push(json!({"name": format!("m{name}"), "mode": "inmem", "workers": w, "n": n, "data_seed": data_seed, "recs": recs,
                             "points": [], "latency_ms": gi % 2, "alone": *k == 1, "runs": runs}));
         }
+    }
+    // ---- paused clock: the data source takes (virtual) milliseconds to days ---------------------
+    let paused: Vec<(usize, usize, &str)> = if thorough {
+        vec![(60, 2, "long"), (300, 8, "short"), (40, 1, "one"), (50, 2, "tail"), (500, 32, "long"), (1000, 2, "short"), (200, 8, "one"), (120, 4, "tail")]
+    } else {
+        vec![(60, 2, "long"), (300, 8, "short"), (40, 1, "one"), (50, 2, "tail"), (150, 4, "long")]
+    };
+    for (dsi, (n, k, profile)) in paused.iter().enumerate() {
+        let n = *n;
+        let data_seed = seed * 1000 + 700 + dsi as u64;
+        let mut recs: Vec<u32> = (0..(1 + n / 50)).map(|_| rng.random_range(2..=n as u32)).collect();
+        if dsi % 2 == 1 {
+            recs.push(1);
+        }
+        recs.sort();
+        recs.dedup();
+        let all: Vec<u32> = (1..=n as u32).filter(|k| !recs.contains(k)).collect();
+        name += 1;
+        let runs: Vec<Value> = (0..*k)
+            .map(|r| {
+                let mut pts: Vec<u32> = (0..4).map(|_| all[rng.random_range(0..all.len())]).collect();
+                if r % 2 == 0 { pts.push(*all.last().unwrap()); }
+                pts.sort();
+                pts.dedup();
+                json!({"variant": r, "acts": random_acts(&mut rng, &pts, 5)})
+            })
+            .collect();
+        out.push(json!({"name": format!("p{name}"), "mode": "paused", "workers": 1, "n": n, "data_seed": data_seed, "recs": recs,
+                        "points": [], "latency_ms": dsi % 3, "gaps": profile, "alone": *k == 1, "runs": runs}));
     }
     out
 }
@@ -835,6 +967,7 @@ fn run_scenario(scn: &Value, trace: &mut Out, results: &mut Out, totals: &mut Va
     let runs_json = scn["runs"].as_array().unwrap_or_else(|| usage("runs")).clone();
     let k = runs_json.len();
     let gated = mode == "gated";
+    let paused = mode == "paused";
 
     let events = Arc::new(dataset(n, data_seed, &recs));
     let instruments = instruments(scn["untraded_exchange"].as_bool().unwrap_or(false));
@@ -866,21 +999,22 @@ fn run_scenario(scn: &Value, trace: &mut Out, results: &mut Out, totals: &mut Va
         outs.push(RunOut { sink, acts, acts_json: rj["acts"].clone(), variant: rj["variant"].as_i64().unwrap_or(-1) });
     }
 
-    let rt = tokio::runtime::Builder::new_multi_thread()
-        .worker_threads(workers)
-        .enable_all()
-        .build()
-        .unwrap_or_else(|e| tool_error(&format!("runtime: {e}")));
+    let rt = if paused {
+        tokio::runtime::Builder::new_current_thread().enable_all().start_paused(true).build()
+    } else {
+        tokio::runtime::Builder::new_multi_thread().worker_threads(workers).enable_all().build()
+    }
+    .unwrap_or_else(|e| tool_error(&format!("runtime: {e}")));
     let executions = vec![ExecutionConfig::Mock(mock_config(latency))];
     let gate_timeouts = Arc::new(AtomicUsize::new(0));
     let extra_streams = Arc::new(AtomicUsize::new(0));
 
     // the call under test
     let t0 = std::time::Instant::now();
-    let outcome: Result<Result<Result<Vec<BacktestSummary<Daily>>, String>, ()>, String> = if gated {
+    let outcome: CallOutcome = if gated {
         let md = GatedMarketData {
             events: events.clone(),
-            time_first: events.iter().find_map(|e| match e { MarketStreamEvent::Item(e) => Some(e.time_exchange), _ => None }).unwrap_or(time(0)),
+            time_first: first_item_time(&events),
             gates: Arc::new(points.clone()),
             slots: rxs,
             next: AtomicUsize::new(0),
@@ -889,19 +1023,19 @@ fn run_scenario(scn: &Value, trace: &mut Out, results: &mut Out, totals: &mut Va
             stream_delay: Duration::from_millis(scn["stream_delay_ms"].as_u64().unwrap_or(0)),
         };
         let args = Arc::new(BacktestArgsConstant { instruments, executions, market_data: md, summary_interval: Daily, engine_state });
-        catch(|| {
-            rt.block_on(async {
-                tokio::time::timeout(SCENARIO_TIMEOUT, run_backtests(args, dynamics)).await.map(|r| r.map(|m| m.summaries).map_err(|e| format!("{e:?}"))).map_err(|_| ())
-            })
-        })
+        call_run_backtests(&rt, args, dynamics, true)
+    } else if paused {
+        let md = SlowMarketData {
+            events: events.clone(),
+            time_first: first_item_time(&events),
+            gaps_ms: Arc::new(gaps(n, data_seed, scn["gaps"].as_str().unwrap_or("long"))),
+        };
+        let args = Arc::new(BacktestArgsConstant { instruments, executions, market_data: md, summary_interval: Daily, engine_state });
+        call_run_backtests(&rt, args, dynamics, false)
     } else {
         let md = MarketDataInMemory::new(events.clone());
         let args = Arc::new(BacktestArgsConstant { instruments, executions, market_data: md, summary_interval: Daily, engine_state });
-        catch(|| {
-            rt.block_on(async {
-                tokio::time::timeout(SCENARIO_TIMEOUT, run_backtests(args, dynamics)).await.map(|r| r.map(|m| m.summaries).map_err(|e| format!("{e:?}"))).map_err(|_| ())
-            })
-        })
+        call_run_backtests(&rt, args, dynamics, true)
     };
     let wall = t0.elapsed().as_secs_f64();
     rt.shutdown_timeout(Duration::from_secs(5));
